@@ -510,6 +510,27 @@ func otherVersionHeld(o *e2eOutcome, name, hash string) bool {
 	return false
 }
 
+// versionsInterleaved: parts of two versions of the name reached the receiver (or
+// the sender's tracker) interleaved: A ... B ... A
+func versionsInterleaved(o *e2eOutcome, name string) bool {
+	var seq []string
+	for _, e := range o.events {
+		if e.Kind == "recv_part" && e.Name == name {
+			if len(seq) == 0 || seq[len(seq)-1] != e.S {
+				seq = append(seq, e.S)
+			}
+		}
+	}
+	seen := map[string]bool{}
+	for _, h := range seq {
+		if seen[h] {
+			return true
+		}
+		seen[h] = true
+	}
+	return false
+}
+
 // oracleProgress (C03): bounded progress after the last disruption
 func oracleProgress(o *e2eOutcome, v vfn) {
 	w := o.w
@@ -537,6 +558,29 @@ func oracleProgress(o *e2eOutcome, v vfn) {
 				// known: versions of one name share the staged body / companion, and polls go by name
 				fp = "newer-version-stranded-behind-delivered-older-version"
 			}
+			if fp == "undelivered" && len(o.spec.Mutations) > 0 {
+				// held (validated, .wait) behind a predecessor that is itself a casualty
+				prev := ""
+				for _, q := range o.reqs {
+					if q.Class == "data" {
+						for _, p := range q.Parts {
+							if p.Name == f.Name {
+								prev = p.Prev
+							}
+						}
+					}
+				}
+				if pv := w.latestVersion(prev); prev != "" && pv != nil && o.final[targetName(w, prev)] != pv.MD5 {
+					for _, st := range stagedOf(o.staged, f.Name) {
+						if strings.HasSuffix(st, ".wait") {
+							fp = "held-behind-undelivered-predecessor"
+						}
+					}
+				}
+			}
+			if fp == "undelivered" && versionsInterleaved(o, f.Name) {
+				fp = "versions-interleaved-in-flight"
+			}
 			if m, ok := o.final[tgt+".lck"]; ok && m == ver.MD5 && o.recvCrash > 0 {
 				fp = "left-under-temporary-name-after-receiver-crash"
 				state += "; " + tgt + ".lck holds the file"
@@ -546,7 +590,9 @@ func oracleProgress(o *e2eOutcome, v vfn) {
 		}
 		done, known := o.cache[f.Name]
 		_, serr := os.Stat(filepath.Join(w.outDir, f.Name))
-		if serr == nil && !(known && done) {
+		if serr == nil && !(known && done) && versionsInterleaved(o, f.Name) {
+			v("C03", "confirmed-within-bound", "versions-interleaved-in-flight", fmt.Sprintf("%s delivered but never confirmed: parts of two versions were in flight interleaved", f.Name))
+		} else if serr == nil && !(known && done) {
 			v("C03", "confirmed-within-bound", "unconfirmed", fmt.Sprintf("%s delivered but not marked done in the persisted queue cache (known=%v done=%v)", f.Name, known, done))
 		}
 		tag := w.tagOf(f.Name)
